@@ -33,6 +33,8 @@ class CaseResult:
     labels: list = field(default_factory=list)  # classification labels (distribution counters)
     counters: dict = field(default_factory=dict)  # numeric counters to be summed
     key: str | None = None  # distinctness key (default: hash of the program)
+    keys: list = field(default_factory=list)  # several non-trivial sub-cases (e.g. one per enumerated fault)
+    evals: int = 1  # number of evaluations this case stands for (fault enumeration: one per fault)
     info: dict = field(default_factory=dict)  # free-form, for samples
 
     def fail(self, sig: str, msg: str = ""):
